@@ -108,12 +108,34 @@ def model_fd(case, ctx):
                 Xp[s, i] = X0[s, i] + step
                 return _eval(model, xc2, Xp, rd, 0.0)[0]
 
-            h = 1e-4 * np.maximum(np.abs(X0[s, i]), 1e-3)
             row = "rho" if i == 0 else ("sl" if i < fs.sl_settings.nfeat else "nonlocal")
+            if row == "nonlocal":
+                h = 1e-4 * np.maximum(np.abs(X0[s, i]), 1e-3)
+            else:
+                # semilocal rows are non-negative quantities (in the 'nst'/'ns' modes sigma and tau themselves, which can be
+                # 1e-8): a step with an absolute floor would cross zero, where the maps are not analytic, and the central
+                # differences converge to the wrong number at every step size (thorough tier: sigma = 3e-8, step 1e-7)
+                h = 1e-4 * np.maximum(np.abs(X0[s, i]), 1e-300)
             fd_check_vec(ctx, fn, df[s, i], ("dres", tag, modes, row), h, rtol=1e-6, s=s, i=i)
     if xc2:
         rt = get_rho_tuple_with_grad_cross(rd, is_mgga=True)
         names = ["vrho", "vsigma", "vtau"]
+        # An opposite-spin baseline is (total - same-spin): two nearly equal libxc potentials are subtracted, and libxc's
+        # own value/derivative consistency at full polarisation (measured 1.8e-9 relative for GGA_C_PBE) is amplified by
+        # the cancellation (thorough tier: 1.3e-6 and 2.1e-6 of the small difference).  The tolerance therefore carries
+        # an absolute part 2e-8 of the *total* functional's potential for models with an OS_ baseline.
+        os_codes = sorted(set(k[w][3:] for k in spec["kernels"] for w in ("mul", "add") if isinstance(k.get(w), str) and k[w].startswith("OS_")))
+        floor = [np.zeros_like(np.asarray(vt[t], dtype=float)) for t in range(3)]
+        if os_codes:
+            from ciderpress.dft.xc_evaluator2 import KernelEvalBase2
+
+            kb = KernelEvalBase2()
+            kb.mode = "NPOL"
+            for code in os_codes:
+                tot = kb._get_baseline(code, rt)
+                for t in range(min(3, len(tot) - 1)):
+                    floor[t] = floor[t] + 2e-8 * np.abs(np.asarray(tot[1 + t], dtype=float)) * sum(abs(k["amp"]) + 1.0 for k in spec["kernels"])
+            ctx.event("opposite_spin_baseline_floor")
         for t in range(3):
             for c in range(rt[t].shape[0]):
                 def fn(step, t=t, c=c):
@@ -122,7 +144,7 @@ def model_fd(case, ctx):
                     return model(X0.copy(), tuple(rt2), rhocut=0.0)[0]
 
                 h = 1e-4 * np.maximum(np.abs(rt[t][c]), 1e-6)
-                fd_check_vec(ctx, fn, vt[t][c], (names[t], modes, "comp%d" % c), h, rtol=1e-6, comp=c)
+                fd_check_vec(ctx, fn, vt[t][c], (names[t], modes, "comp%d" % c), h, rtol=1e-6, atol=floor[t][c], comp=c)
 
 
 @subcheck("C04", "locality_cutoff", st_model_case, quick=2400, thorough=40000, tolerances=TOL,
@@ -279,8 +301,9 @@ def baseline_fd(case, ctx):
                     d1 = (f(np.where(tiny, h, 0.0)) - e0) / h
                     d2 = (f(np.where(tiny, h / 2, 0.0)) - e0) / (h / 2)
                     dfd = (2 * d2 - d1)[tiny]
+                    # round-off of the one-sided differences: ~ 20 eps |e| / h per sample
                     ctx.close(de[s, i][tiny], dfd, ("native", code, "row1", "vanishing_s2"), rtol=1e-2,
-                              atol=1e-9 * float(np.max(np.abs(e0))) + 1e-300, s2=X0[s, i][tiny])
+                              atol=float(np.max(5e-15 * np.abs(e0[tiny]) / h)) + 1e-9 * float(np.max(np.abs(e0))) + 1e-300, s2=X0[s, i][tiny])
         return
     code, mode = case["libxc"], case["mode"]
     ctx.event("libxc=%s/%s/nspin%d" % (code, mode, nspin))
